@@ -836,6 +836,15 @@ func caseC10(c *Ctx) {
 	p := DefaultProfile()
 	p.Steps = 150
 	p.Zero("RegisterType")
+	if c.Mode != "limit" {
+		// types for the rejected-registration episodes below: relation and plain shapes alternate
+		p.Late = lateKeys(c.R, 24)
+		for i := range p.Late {
+			if (i+c.Case)%3 == 0 {
+				p.Late[i] = "X" + p.Late[i][1:]
+			}
+		}
+	}
 	p.W["CacheRegister"] = 5
 	p.W["CacheUnregister"] = 4
 	p.W["ResRegister"], p.W["ResAdd"], p.W["ResRemove"] = 2, 3, 2
@@ -889,6 +898,28 @@ func caseC10(c *Ctx) {
 			continue
 		}
 		run = 0
+		if i > 10 && c.Mode != "limit" && c.R.Chance(0.04) {
+			// a registration rejected by a locked world, then an accepted one: the accepted type must not
+			// inherit anything from the rejected one (the rows above keep probing it afterwards)
+			if rop := g.gen("RegisterType"); rop != nil {
+				q := s.W.Query(ecs.All())
+				ok := InjectFault(s, &FaultRow{Name: "locked.RegisterType", Atomic: true}, rop)
+				if s.W.IsLocked() {
+					q.Close()
+				}
+				if !ok {
+					break
+				}
+				if aop := g.gen("RegisterType"); aop != nil {
+					s.Do(aop)
+					if s.Failed() || !checkRegistry(s, "after a rejected and an accepted registration") {
+						break
+					}
+					s.Cov.N["rejected_then_accepted_registration"]++
+				}
+			}
+			continue
+		}
 		op := g.Next()
 		if op.Q && op.Ill == "" && c.R.Chance(0.4) {
 			op.Probe = Pick(c.R, []string{"entityat-1", "entityatcount", "step0", "step-1"})
